@@ -1,4 +1,5 @@
 SPECIFICATION Spec
+CONSTANT Ignore = {}
 CONSTANT Strict = TRUE
 CONSTRAINT Reg
 POSTCONDITION Accepted
